@@ -55,7 +55,8 @@ def handle (st : DState) (line : String) : DState × String :=
               else .error .Other
             (st, showExcept toString r)
           | [a] =>
-            if op == "inv" then (st, toString (Py.inv a))
+            if op == "pack" then (st, showExcept showIntList (Py.packU32 a))
+            else if op == "inv" then (st, toString (Py.inv a))
             else if op == "bitlen" then (st, toString (Py.bitLength a))
             else (st, "bad-op")
           | _ => (st, "bad-op")
